@@ -13,22 +13,22 @@ CLAIMED = {
          "DESIGN.md §4 C01"),
  "C02": ("model_checking",
          "explicit enumeration of evaluation histories and of environment answers (HashMap iteration orders through the H1 seam, deviation-bounded); differential evaluation for double evaluation and let-abstraction",
-         "States are histories of <= 2 earlier programs (35-program alphabet) and iteration-order answer scripts with <= 2 deviations at every choice point a program reaches; each transition is a whole-program evaluation in a fresh session whose status, outputs JSON and bindings must equal the empty-history / default-order run. Every generated expression over shared list / record / string / function / number values is evaluated twice (equal results, all earlier bindings unchanged) and every assignment-free sub-expression is let-abstracted. The real binary is repeated in fresh processes (labelled repetition).",
+         "States are histories of <= 2 earlier programs (45-program alphabet) and iteration-order answer scripts with <= 2 deviations at every choice point a program reaches; each transition is a whole-program evaluation in a fresh session whose status, outputs JSON and bindings must equal the empty-history / default-order run. Every generated expression over shared list / record / string / function / number values is evaluated twice (equal results, all earlier bindings unchanged) and every assignment-free sub-expression is let-abstracted. The real binary is repeated in fresh processes (labelled repetition).",
          "For scopes with more than 4 names only n+1 of the n! orders are offered by the seam; time_now and print are excluded as the statement says.",
          "DESIGN.md §4 C02"),
  "C03": ("model_checking",
          "explicit-state BFS to fixpoint over statement histories of the real evaluator + reference model + stateright cross-check",
-         "Every reachable session state over a 32-statement alphabet (bind, rebind, shadow, nested assignment, output, calls, failing and reserved-name statements) is enumerated to the BFS fixpoint; every transition runs one statement through get_pairs/evaluate_pairs and is checked against the immutability/scoping invariants and a reference model of the alphabet. Right level because the property is an invariant over all statement histories.",
-         "Trusts the harness's canonical state key (sorted bindings + outputs) and the 32-statement reference model; names/values outside the alphabet are not explored.",
+         "Every reachable session state over a 56-statement alphabet (bind, rebind, shadow, nested assignment, output, calls, failing and reserved-name statements) is enumerated to the BFS fixpoint; every transition runs one statement through get_pairs/evaluate_pairs and is checked against the immutability/scoping invariants and a reference model of the alphabet. Right level because the property is an invariant over all statement histories.",
+         "Trusts the harness's canonical state key (sorted bindings + outputs) and the reference model of the statement alphabet; names/values outside the alphabet are not explored.",
          "DESIGN.md §4 C03"),
  "C04": ("model_checking",
          "explicit enumeration of sessions (definition-time values x closure definitions) and of calling contexts as transitions of the real evaluator; reference model for arity",
-         "Every closure of a 20-definition hand-written set plus every generated body (every node kind, every parent x child kind in every slot, over parameter / captured / literal leaves) is defined in a session under each definition-time value pair; the same call is then evaluated at top level and in 21 calling contexts (shadowing parameters of every kind, do-locals, nested blocks, callbacks of via/map/into/reduce/where, the function itself as callback, a closure created under another binding, container and conditional positions), with refused redefinitions in between: every context must give the top-level value. All 24 documented parameter-list shapes x argument counts 0..n+3 x plain/spread/mixed/into passing are compared with a 10-line reference model of positional binding.",
+         "Every closure of a hand-written set (~37 definitions) plus every generated body (every node kind, every parent x child kind in every slot, over parameter / captured / literal leaves) is defined in a session under each definition-time value pair; the same call is then evaluated at top level and in 21 calling contexts (shadowing parameters of every kind, do-locals, nested blocks, callbacks of via/map/into/reduce/where, the function itself as callback, a closure created under another binding, container and conditional positions), with refused redefinitions in between: every context must give the top-level value. All 24 documented parameter-list shapes x argument counts 0..n+3 x plain/spread/mixed/into passing are compared with a 10-line reference model of positional binding.",
          "Closures are closed by construction (all free names bound at definition); bodies deeper than parent x child and contexts outside the 21-entry grammar are not explored.",
          "DESIGN.md §4 C04"),
  "C05": ("exploration",
          "generator-automaton enumeration of function bodies x capture configurations x argument tuples; differential execution of original vs reloaded vs re-emitted function",
-         "Function bodies = every node kind alone, every parent x child kind in every slot, depth-3 spines, plus binder-collision kinds (inner parameter / do-local / shorthand named like a captured name, postfix on captured values) over typed leaves; each under 12 capture configurations (negative, NaN, infinities, -0, strings with both quote kinds / backslash / newline, nested data, records with quoted keys, closures with their own captures, built-ins) and every argument pair of a 6/11-value pool: the original closure, its from_json(to_json(.)) reload in a fresh heap and the re-emitted reload must agree (equal value or both fail); the emitted text must itself be a lambda; a spread of functions also through the real `blots p1 | blots p2` pipeline.",
+         "Function bodies = every node kind alone, every parent x child kind in every slot, depth-3 spines, plus binder-collision kinds (inner parameter / do-local / shorthand named like a captured name, postfix on captured values) over typed leaves; each under 16 capture configurations (negative, NaN, infinities, -0, strings with both quote kinds / backslash / newline, nested data, records with quoted keys, closures with their own captures, built-ins) and every argument pair of a 6/11-value pool: the original closure, its from_json(to_json(.)) reload in a fresh heap and the re-emitted reload must agree (equal value or both fail); the emitted text must itself be a lambda; a spread of functions also through the real `blots p1 | blots p2` pipeline.",
          "Function-valued results are compared by signature only (their behaviour is compared when they are called); self-recursive and late-bound functions are outside the statement; one recorded known finding (emitted text of root-pipe bodies is not itself a lambda, pinned by existing tests).",
          "DESIGN.md §4 C05"),
  "C06": ("exploration",
@@ -93,7 +93,7 @@ CLAIMED = {
          "DESIGN.md §4 C17"),
  "C18": ("exploration",
          "exhaustive enumeration of a recursion grammar, every program executed by the real release binary under the 8 MiB stack limit",
-         "11 recursion kinds (self, mutual, via / map / reduce / filter callbacks, do-block body, record-wrapped, into, conditional arms, closure-returning-closure) x 4 nesting constructs x per-call nesting depth 1..32 x {unbounded, bounded to a few hundred calls}: every program runs twice through the release CLI with RLIMIT_STACK = 8 MiB; unbounded recursion must exit 1 with 'maximum call depth', bounded recursion must exit 0 with the value the harness computes.",
+         "20 recursion kinds (self, mutual, anonymous functions reaching themselves through a parameter, via / map / reduce / filter / where / every / some / count_by / group_by callbacks, do-block body, record-wrapped, into, conditional arms, closure-returning-closure) x 5 nesting constructs x per-call nesting depth 1..32 x {unbounded, bounded to a few hundred calls}: every program runs twice through the release CLI with RLIMIT_STACK = 8 MiB; unbounded recursion must exit 1 with 'maximum call depth', bounded recursion must exit 0 with the value the harness computes. Every program whose lines are statements of their own is also typed into the interactive mode through a pseudo-terminal (stdin is a terminal): limit reported, session alive afterwards, exit status 0.",
          "Depends on the build profile (release, as shipped) and on the 8 MiB limit the property names; nesting deeper than 32 is not explored.",
          "DESIGN.md §4 C18"),
  "C19": ("model_checking",
